@@ -109,6 +109,8 @@ CONTRACTS[F + "lempel_ziv_based_encode"] = dict(
     ensures_ghost=["g_counted + g_capped == len(string)", "implies(max_size > old(card(dictionary)) + len(string), g_capped == 0)"],
     loops={"for#1": dict(invariant=["0 <= start and start <= end", "current_size >= card(dictionary)", "g_counted + g_capped == end",
                                     "g_capped >= 0 and g_counted >= 0", "current_size <= old(card(dictionary)) + g_counted",
+                                    # the cap: the dictionary never grows beyond max_size phrases (unless it already was larger)
+                                    "current_size <= max(old(card(dictionary)), max_size)",
                                     "implies(max_size > old(card(dictionary)) + len(string), g_capped == 0)"])},
 )
 
